@@ -24,7 +24,13 @@ ENGINE = "scope"
 CHUNK = 8
 RULE = (
     "cases = (geo) every shape HxW x pixel-scale menu x origin menu, per case every pixel x 9x9 in-pixel query offsets "
-    "through every public conversion route, 5 mask patterns for the pixel-centre grids; (geo1) every 1D length x scale x "
+    "through every public conversion route, 5 mask patterns for the pixel-centre grids; every grid conversion must leave "
+    "the caller's ndarray / Grid2D bitwise unchanged and return a buffer of its own; per case one float64 ndarray and one "
+    "Grid2D (and each masked pixel-centre grid) are REUSED through the sequence pixels->centres->indexes->scaled (twice), "
+    "every result against the closed form; per case and per pixel-centre-grid entry point (Grid2D.uniform / from_mask, "
+    "derive_grid.all_false, Grid1D.uniform / from_mask, the grid_2d_util / grid_1d_util generators) one request history "
+    "request -> caller edits the answer in place -> identical request -> request with other origin / mask -> identical "
+    "request, every answer against the closed form and all buffers pairwise disjoint; (geo1) every 1D length x scale x "
     "origin; (circ/ann/anti/ell/ellann) every shape x scale x requested-centre x mask-origin (x axis-ratio x angle), per "
     "case one radius inside EVERY gap (>1e-6) between consecutive distinct pixel-centre radii plus below-first/above-last, "
     "so every distinct mask the constructor can return for that geometry is produced (pairs / triples for the annular "
@@ -38,16 +44,20 @@ ASSUMPTIONS = [
     "each constructor's mask is a step function of each radius argument: one radius per gap between consecutive distinct "
     "pixel-centre radii (mid-gap, plus 2e-6 inside each gap end for single-radius constructors and for each radius "
     "argument in isolation) represents all radii outside the excluded band around pixel-centre radii",
+    "input purity / buffer independence are decided per call on float64 C-contiguous slim inputs (ndarray and Grid2D with "
+    "an all-false or a patterned mask); process-global library state is only observed within one case (the runner forks a "
+    "fresh child per chunk), therefore every request history lives inside one case",
     "pixel scales / origins / centres / axis ratios / angles are finite menus (dyadic, non-dyadic, anisotropic, negative, "
     "unequal components, one seeded member each); the seed only instantiates the seeded menu members",
 ]
 BOUNDS = {
-    "quick": "geo: shapes 1..6 x 1..6, 7 scale pairs, 6 origins, all pixels x 81 offsets; geo1: lengths 1..8 x 5 scales x 4 "
+    "quick": "geo: shapes 1..6 x 1..6, 7 scale pairs, 6 origins, all pixels x 81 offsets (reused-grid sequences of 8 conversions: "
+    "all pixels x 12 offsets; request histories of 5 requests for 8 entry points); geo1: lengths 1..8 x 5 scales x 4 "
     "origins; masks: shapes 2..7 x 2..7, 4 scale pairs, 5 centres, 3 mask origins; circular: all steps (lo/mid/hi per gap); "
     "annular: all ordered pairs of steps; anti-annular: all ordered triples over a 5-step subsample + isolated edge radii, "
     "mask origin rotating; elliptical: all steps for 3 axis ratios x 5 angles, mask origin rotating; elliptical-annular: 5 (q,phi) "
     "inner/outer combinations, product of 6-step subsamples + isolated edge radii, mask origin rotating",
-    "thorough": "geo: shapes 1..8 x 1..8, 9 scale pairs, 8 origins; geo1: lengths 1..12; masks: shapes 2..8 x 2..8, 5 scale "
+    "thorough": "geo: shapes 1..8 x 1..8, 9 scale pairs, 8 origins (sequences / histories as in quick); geo1: lengths 1..12; masks: shapes 2..8 x 2..8, 5 scale "
     "pairs, 6 centres, 3 mask origins; circular/annular: all steps / all ordered pairs; anti-annular: ALL ordered triples "
     "of steps for shapes with <= 20 cells, a 10-step subsample above; elliptical: 4 axis ratios x 7 angles all steps; elliptical-annular: 7 combinations, product of "
     "12-step subsamples",
@@ -299,6 +309,191 @@ def _chk_yx(v, name, got, want, tol, tag):
         )
 
 
+# ---- purity of the conversions' inputs / independence of the buffers of the pixel-centre grids
+
+
+def _raw(x):
+    """The ndarray buffer behind an autoarray structure (public ``.array``), or the ndarray itself."""
+    for _ in range(8):
+        if isinstance(x, np.ndarray):
+            return x
+        x = x.array
+    return np.asarray(x)
+
+
+class _Pure:
+    """Bitwise snapshot of a conversion's input (values, and mask / geometry of a structure). ``check`` blames the function
+    that was called since the last check and re-snapshots, so a later conversion is not blamed for an earlier one's write."""
+
+    def __init__(self, obj):
+        self.obj = obj
+        self.buf = _raw(obj)  # the caller's original buffer (kept: the function might rebind obj._array AND write here)
+        self.mask = None if isinstance(obj, np.ndarray) else getattr(obj, "mask", None)
+        self._take()
+
+    def _take(self):
+        self.snap = np.array(_raw(self.obj))
+        self.bsnap = self.snap if _raw(self.obj) is self.buf else np.array(self.buf)
+        m = self.mask
+        self.msnap = None if m is None else (np.array(_raw(m)), tuple(m.pixel_scales), tuple(m.origin))
+
+    @staticmethod
+    def _same(now, snap):
+        return now.shape == snap.shape and now.dtype == snap.dtype and now.tobytes() == snap.tobytes()
+
+    def check(self, v, fn, tag):
+        now = _raw(self.obj)
+        same = self._same(now, self.snap) and self._same(self.buf, self.bsnap)
+
+        def msg():
+            a, b = (now, self.snap) if not self._same(now, self.snap) else (self.buf, self.bsnap)
+            if a.shape != b.shape or a.dtype != b.dtype:
+                return "%s input was %s %s, is now %s %s" % (tag, b.dtype, b.shape, a.dtype, a.shape)
+            d = np.flatnonzero(~((a.ravel() == b.ravel()) | ((a.ravel() != a.ravel()) & (b.ravel() != b.ravel()))))
+            k = int(d[0]) if len(d) else 0
+            return "%s the caller's %s was overwritten: flat element %d was %r is now %r (%d elements differ)" % (
+                tag, type(self.obj).__name__, k, b.ravel()[k].tolist(), a.ravel()[k].tolist(), len(d))
+
+        v.ok(same, fn + ":input-mutated", msg)
+        msame = True
+        if self.mask is not None:
+            m = getattr(self.obj, "mask", None)
+            msame = m is not None and self._same(np.array(_raw(m)), self.msnap[0]) and tuple(m.pixel_scales) == self.msnap[1] \
+                and tuple(m.origin) == self.msnap[2]
+            v.ok(msame, fn + ":input-mask-mutated", tag)
+        if not (same and msame):
+            self.mask = getattr(self.obj, "mask", None) if self.mask is not None else None
+            self._take()
+
+
+def _cmp_yx(got, want, tol):
+    """-> (ok, class suffix, message); per-axis suffix as in _chk_yx so that one defect keeps one family of ids."""
+    got = np.asarray(_raw(got), dtype=float)
+    if got.shape != want.shape:
+        return False, ":shape", "shape %s want %s" % (got.shape, want.shape)
+    for ax, lab in ((0, "y"), (1, "x")):
+        bad = ~(np.abs(got[..., ax] - want[..., ax]) <= tol)
+        if bad.any():
+            k = int(np.flatnonzero(bad.ravel())[0])
+            return False, ":" + lab, "%s: first bad flat idx %d got %r want %r (n_bad=%d, tol=%.1e)" % (
+                lab, k, float(got[..., ax].ravel()[k]), float(want[..., ax].ravel()[k]), int(bad.sum()), tol)
+    return True, "", ""
+
+
+def _cmp_int_yx(got, want):
+    got = np.asarray(_raw(got))
+    if got.shape != want.shape:
+        return False, ":shape", "shape %s want %s" % (got.shape, want.shape)
+    for ax, lab in ((0, "y"), (1, "x")):
+        bad = got[..., ax] != want[..., ax]
+        if bad.any():
+            k = int(np.flatnonzero(bad.ravel())[0])
+            return False, ":" + lab, "%s: first bad flat idx %d got %r want %r (n_bad=%d)" % (
+                lab, k, got[..., ax].ravel()[k].tolist(), want[..., ax].ravel()[k].tolist(), int(bad.sum()))
+    return True, "", ""
+
+
+def _cmp_int(got, want):
+    got = np.asarray(_raw(got))
+    if got.shape != want.shape:
+        return False, "", "shape %s want %s" % (got.shape, want.shape)
+    bad = np.flatnonzero(got != want)
+    if len(bad):
+        return False, "", "first bad idx %d got %r want %r (n_bad=%d)" % (int(bad[0]), got[bad[0]].tolist(), want[bad[0]].tolist(), len(bad))
+    return True, "", ""
+
+
+def _sequence(v, steps, order, tag):
+    """Run the conversions named in ``order`` on the SAME input objects. steps[key] = (finding name, call(input), shared input,
+    fresh-input factory, comparator). Each result is compared with the closed form; a result that is wrong only on the reused
+    object (right on a fresh copy of the pristine values) gets ':after-earlier-conversion-of-same-grid', one that is wrong on
+    the fresh copy as well keeps the function's own id. After each call the input must be bitwise unchanged and the result
+    must own its buffer."""
+    pures = {}
+    for n, key in enumerate(order):
+        name, call, holder, fresh, cmp = steps[key]
+        pure = pures.get(id(holder))
+        if pure is None:
+            pure = pures[id(holder)] = _Pure(holder)
+        where = "%s [call %d (%s) of the sequence %s on one reused %s]" % (tag, n + 1, key, "".join(order), type(holder).__name__)
+        alias = False
+        try:
+            r = call(holder)
+            ok, suffix, msg = cmp(r)
+            alias = bool(np.shares_memory(_raw(r), _raw(holder)))
+        except Exception as e:  # noqa: BLE001 - a corrupted input may make the conversion raise; classified below
+            ok, suffix, msg = False, "", "raised %r" % (e,)
+        if ok:
+            v.ok(True, name)
+        else:
+            ok2, suffix2, msg2 = cmp(call(fresh()))
+            if ok2:
+                v.ok(False, name + ":after-earlier-conversion-of-same-grid", "%s %s" % (where, msg))
+            else:
+                v.ok(False, name + suffix2, "%s (fresh input) %s" % (tag, msg2))
+        v.ok(not alias, name + ":result-aliases-input", where)
+        pure.check(v, name, where)
+
+
+def _history(v, name, tag, req, want, tol, req_alt=None, want_alt=None, tol_alt=None):
+    """request -> check -> caller edits the grid it was handed IN PLACE -> identical request -> check + buffers disjoint
+    (-> request with different parameters -> check -> original request again -> check)."""
+
+    def good(g, w, t):
+        a = np.asarray(_raw(g), dtype=float)
+        return a.shape == w.shape and bool(np.all(np.abs(a - w) <= t))
+
+    def show(g, w):
+        a = np.asarray(_raw(g), dtype=float)
+        if a.shape != w.shape:
+            return "shape %s want %s" % (a.shape, w.shape)
+        k = int(np.argmax(np.abs(a - w).ravel()))
+        return "flat element %d got %r want %r" % (k, float(a.ravel()[k]), float(w.ravel()[k]))
+
+    g1 = req()  # (every entry point has already answered this request once in this case: the fresh checks of the caller)
+    if not v.ok(good(g1, want, tol), name + ":repeat-request", lambda: "%s %s" % (tag, show(g1, want))):
+        return
+    r1 = _raw(g1)
+    saved = r1.copy()
+    # in-place edits through the structure's own __setitem__ and on the raw buffer
+    if r1.ndim == 1:
+        g1[0] = 123.0
+        r1[-1] -= 3.0
+    elif r1.ndim == 2:
+        g1[0, 0] = 123.0
+        g1[:, 1] = g1[:, 1] + 5.0
+        r1[-1, 0] -= 3.0
+    else:
+        g1[0, 0, 0] = 123.0
+        g1[..., 1] = g1[..., 1] + 5.0
+        r1[-1, -1, 0] -= 3.0
+    e1 = _raw(g1)
+    try:
+        g2 = req()
+        ok2 = v.ok(good(g2, want, tol), name + ":second-request-after-in-place-edit",
+                   lambda: "%s the same request answered after the caller edited the first answer in place: %s" % (tag, show(g2, want)))
+        v.ok(g2 is not g1 and not np.shares_memory(e1, _raw(g2)), name + ":shared-buffer",
+             lambda: "%s two identical requests returned %s" % (tag, "the same object" if g2 is g1 else "grids sharing one ndarray buffer"))
+        if req_alt is not None:
+            ga = req_alt()
+            v.ok(good(ga, want_alt, tol_alt), name + ":request-after-different-parameters",
+                 lambda: "%s request with other parameters after the first: %s" % (tag, show(ga, want_alt)))
+            v.ok(not np.shares_memory(e1, _raw(ga)) and not np.shares_memory(_raw(g2), _raw(ga)), name + ":shared-buffer",
+                 lambda: "%s a request with other parameters shares its buffer with an earlier answer" % tag)
+            g3 = req()
+            # (if the second answer already showed the caller's edit, a wrong third answer is the same defect)
+            v.ok(good(g3, want, tol), name + (":request-after-different-parameters" if ok2 else ":second-request-after-in-place-edit"),
+                 lambda: "%s original request repeated after a request with other parameters: %s" % (tag, show(g3, want)))
+            v.ok(not np.shares_memory(e1, _raw(g3)) and not np.shares_memory(_raw(g2), _raw(g3)) and not np.shares_memory(_raw(ga), _raw(g3)),
+                 name + ":shared-buffer", lambda: "%s third identical request shares its buffer with an earlier answer" % tag)
+    finally:
+        # undo the edit: if the buffer is shared with library-side state, the next entry point's history starts from a clean
+        # state and speaks for itself (each entry point is blamed only for what ITS answers show)
+        e1[...] = saved
+        if e1 is not r1:
+            r1[...] = saved
+
+
 def run_geo1(aa, v, L, s, o):
     gu = aa.util.geometry
     v.outcome = "geo1:%s" % ("e" if L % 2 == 0 else "o")
@@ -334,6 +529,26 @@ def run_geo1(aa, v, L, s, o):
     v.ok(us.shape == xc.shape and bool(np.all(np.abs(us - xc) <= tol)), "Grid1D.uniform", lambda: "%s %s want %s" % (tag, us.tolist(), xc.tolist()))
     v.ok(abs(u.mask.origin[0] - o) <= tol and abs(u.mask.pixel_scales[0] - s) <= 0, "Grid1D.uniform:mask-geometry",
          lambda: "%s origin %r scales %r" % (tag, u.mask.origin, u.mask.pixel_scales))
+    # ---- request histories: the grids handed out must not share buffers (a caller's in-place edit must not reach later requests)
+    g1u = aa.util.grid_1d
+    o_alt = o + 1.5
+    xc_alt = o_alt + (np.arange(L) - (L - 1) / 2.0) * s
+    tol_alt = tol + 2e-12
+    m = (np.arange(L) % 2) == 1  # pixel 0 is always unmasked
+    m_alt = np.zeros(L, bool)
+    _history(v, "Grid1D.uniform", tag,
+             lambda: aa.Grid1D.uniform(shape_native=(L,), pixel_scales=(s,), origin=(o,)), xc, tol,
+             lambda: aa.Grid1D.uniform(shape_native=(L,), pixel_scales=(s,), origin=(o_alt,)), xc_alt, tol_alt)
+    mask_h = aa.Mask1D(mask=m.copy(), pixel_scales=(s,), origin=(o,))
+    _history(v, "Grid1D.from_mask", tag,
+             lambda: aa.Grid1D.from_mask(mask=mask_h), xc[~m], tol,
+             lambda: aa.Grid1D.from_mask(mask=aa.Mask1D(mask=m_alt.copy(), pixel_scales=(s,), origin=(o_alt,))), xc_alt[~m_alt], tol_alt)
+    _history(v, "grid_1d_util.grid_1d_slim_via_shape_slim_from", tag,
+             lambda: g1u.grid_1d_slim_via_shape_slim_from(shape_slim=(L,), pixel_scales=(s,), origin=(o,)), xc, tol,
+             lambda: g1u.grid_1d_slim_via_shape_slim_from(shape_slim=(L,), pixel_scales=(s,), origin=(o_alt,)), xc_alt, tol_alt)
+    _history(v, "grid_1d_util.grid_1d_slim_via_mask_from", tag,
+             lambda: g1u.grid_1d_slim_via_mask_from(mask_1d=m.copy(), pixel_scales=(s,), origin=(o,)), xc[~m], tol,
+             lambda: g1u.grid_1d_slim_via_mask_from(mask_1d=m_alt.copy(), pixel_scales=(s,), origin=(o_alt,)), xc_alt[~m_alt], tol_alt)
     # util-level scalar conversions (anchored in geometry_util)
     for k in range(L):
         sc = gu.scaled_coordinates_1d_from(pixel_coordinates_1d=(k,), shape_slim=(L,), pixel_scales=(s,), origins=(o,))
@@ -430,34 +645,81 @@ def run_geo(aa, v, H, W, s_in, o_in):
     Qs = Q.reshape(N, 2)
     qgrid = aa.Grid2D.no_mask(values=Qs.copy(), shape_native=(H * W, 81), pixel_scales=1.0)
     Is = Iref.reshape(N, 2)
+    pure_q = _Pure(qgrid)  # every conversion must leave the caller's grid (values and mask) bitwise unchanged
     gc = _arr(geom.grid_pixel_centres_2d_from(grid_scaled_2d=qgrid).slim)
+    pure_q.check(v, "grid_pixel_centres_2d_from", tag)
     for ax, lab in ((0, "y"), (1, "x")):
         okc = gc.shape == Is.shape and np.array_equal(gc[:, ax], Is[:, ax])
         v.ok(okc, "grid_pixel_centres_2d_from:" + lab, lambda: "%s %s first bad: %s" % (tag, lab, _first_bad(Qs, gc[:, ax] if gc.shape == Is.shape else None, Is[:, ax])))
     gi = _arr(geom.grid_pixel_indexes_2d_from(grid_scaled_2d=qgrid).slim)
+    pure_q.check(v, "grid_pixel_indexes_2d_from", tag)
     wi = Is[:, 0] * W + Is[:, 1]
     v.ok(gi.shape == wi.shape and np.array_equal(gi, wi), "grid_pixel_indexes_2d_from",
          lambda: "%s first bad: %s" % (tag, _first_bad(Qs, gi if gi.shape == wi.shape else None, wi)))
-    gnat = gu.grid_pixel_centres_2d_from(grid_scaled_2d=Q.reshape(H * W, 81, 2).copy(), shape_native=(H, W), pixel_scales=s, origin=o)
+    qnat = Q.reshape(H * W, 81, 2).copy()
+    pure_n = _Pure(qnat)
+    gnat = gu.grid_pixel_centres_2d_from(grid_scaled_2d=qnat, shape_native=(H, W), pixel_scales=s, origin=o)
+    pure_n.check(v, "geometry_util.grid_pixel_centres_2d_from", tag)
     v.ok(np.asarray(gnat).shape == (H * W, 81, 2) and np.array_equal(np.asarray(gnat).reshape(N, 2), Is), "geometry_util.grid_pixel_centres_2d_from", tag)
 
     # continuous pixel coordinates: offset from the top-left corner, and the inverse
     Pref = np.stack([(y_top - Qs[:, 0]) / s[0], (Qs[:, 1] - x_left) / s[1]], axis=-1)
     gp_grid = geom.grid_pixels_2d_from(grid_scaled_2d=qgrid)
+    pure_q.check(v, "grid_pixels_2d_from", tag)
     gp = _arr(gp_grid.slim)
     _chk_yx(v, "grid_pixels_2d_from", gp, Pref, tolp, tag)
     if gp.shape == Pref.shape:
         for ax, lab in ((0, "y"), (1, "x")):
             v.ok(np.array_equal(np.floor(gp[:, ax]).astype(int), Is[:, ax]), "grid_pixels_2d_from:floor-is-index:" + lab, tag)
+    pure_gp = _Pure(gp_grid)
     back = _arr(geom.grid_scaled_2d_from(grid_pixels_2d=gp_grid).slim)
+    pure_gp.check(v, "grid_scaled_2d_from", tag)
     _chk_yx(v, "grid_scaled_2d_from(grid_pixels_2d_from)", back, Qs, tol, tag)
     # the other composition, starting from an independent menu of continuous pixel coordinates
     pgrid = aa.Grid2D.no_mask(values=Pref.copy(), shape_native=(H * W, 81), pixel_scales=1.0)
+    pure_p = _Pure(pgrid)
     sc_grid = geom.grid_scaled_2d_from(grid_pixels_2d=pgrid)
+    pure_p.check(v, "grid_scaled_2d_from", tag)
     sc = _arr(sc_grid.slim)
     _chk_yx(v, "grid_scaled_2d_from", sc, Qs, tol, tag)
+    pure_sc = _Pure(sc_grid)
     back2 = _arr(geom.grid_pixels_2d_from(grid_scaled_2d=sc_grid).slim)
+    pure_sc.check(v, "grid_pixels_2d_from", tag)
     _chk_yx(v, "grid_pixels_2d_from(grid_scaled_2d_from)", back2, Pref, tolp, tag)
+
+    # ---- conversion SEQUENCES on one reused float64 ndarray (util level) and one reused Grid2D (geometry level):
+    # pixels -> centres -> indexes -> scaled -> pixels -> centres -> indexes -> scaled, every result against the closed form
+    # (all pixels x 12 of the 81 in-pixel offsets)
+    ksub = list(range(0, 81, 7))
+    nsub = len(ksub)
+    Qb = np.ascontiguousarray(Q[:, :, ksub, :].reshape(H * W * nsub, 2))
+    Ib = Iref[:, :, ksub, :].reshape(H * W * nsub, 2)
+    Pb = np.stack([(y_top - Qb[:, 0]) / s[0], (Qb[:, 1] - x_left) / s[1]], axis=-1)
+    wib = Ib[:, 0] * W + Ib[:, 1]
+    ukw = dict(shape_native=(H, W), pixel_scales=s, origin=o)
+    qa, pa = Qb.copy(), Pb.copy()
+    assert qa.dtype == np.float64 and pa.dtype == np.float64 and qa.flags.c_contiguous and qa.flags.writeable
+    _sequence(v, {
+        "P": ("geometry_util.grid_pixels_2d_slim_from", lambda a: gu.grid_pixels_2d_slim_from(grid_scaled_2d_slim=a, **ukw),
+              qa, Qb.copy, lambda r: _cmp_yx(r, Pb, tolp)),
+        "C": ("geometry_util.grid_pixel_centres_2d_slim_from", lambda a: gu.grid_pixel_centres_2d_slim_from(grid_scaled_2d_slim=a, **ukw),
+              qa, Qb.copy, lambda r: _cmp_int_yx(r, Ib)),
+        "I": ("geometry_util.grid_pixel_indexes_2d_slim_from", lambda a: gu.grid_pixel_indexes_2d_slim_from(grid_scaled_2d_slim=a, **ukw),
+              qa, Qb.copy, lambda r: _cmp_int(r, wib)),
+        "S": ("geometry_util.grid_scaled_2d_slim_from", lambda a: gu.grid_scaled_2d_slim_from(grid_pixels_2d_slim=a, **ukw),
+              pa, Pb.copy, lambda r: _cmp_yx(r, Qb, tol)),
+    }, "PCISPCIS", tag)
+
+    def mk(vals):
+        return lambda: aa.Grid2D.no_mask(values=vals.copy(), shape_native=(H * W, nsub), pixel_scales=1.0)
+
+    qg, pg = mk(Qb)(), mk(Pb)()
+    _sequence(v, {
+        "P": ("grid_pixels_2d_from", lambda g: geom.grid_pixels_2d_from(grid_scaled_2d=g).slim, qg, mk(Qb), lambda r: _cmp_yx(r, Pb, tolp)),
+        "C": ("grid_pixel_centres_2d_from", lambda g: geom.grid_pixel_centres_2d_from(grid_scaled_2d=g).slim, qg, mk(Qb), lambda r: _cmp_int_yx(r, Ib)),
+        "I": ("grid_pixel_indexes_2d_from", lambda g: geom.grid_pixel_indexes_2d_from(grid_scaled_2d=g).slim, qg, mk(Qb), lambda r: _cmp_int(r, wib)),
+        "S": ("grid_scaled_2d_from", lambda g: geom.grid_scaled_2d_from(grid_pixels_2d=g).slim, pg, mk(Pb), lambda r: _cmp_yx(r, Qb, tol)),
+    }, "PCISPCIS", tag)
 
     # ---- pixel-centre grids
     Cs = C.reshape(H * W, 2)
@@ -477,12 +739,62 @@ def run_geo(aa, v, H, W, s_in, o_in):
         _chk_yx(v, "Grid2D.from_mask:native", _arr(g.native), np.where(m[:, :, None], 0.0, C), tol, tag + " pattern %d" % p)
         _chk_yx(v, "derive_grid.all_false", _arr(mask.derive_grid.all_false.slim), Cs, tol, tag + " pattern %d" % p)
         # centre -> flattened index
+        pure_g = _Pure(g)
         idx = _arr(mask.geometry.grid_pixel_indexes_2d_from(grid_scaled_2d=g).slim)
+        pure_g.check(v, "grid_pixel_indexes_2d_from", tag + " pattern %d (grid of the mask)" % p)
         wi = np.flatnonzero(~m.ravel())
         v.ok(idx.shape == wi.shape and np.array_equal(idx, wi), "grid_pixel_indexes_2d_from:from_mask-centres",
              lambda: "%s pattern %d got %s want %s" % (tag, p, idx.tolist(), wi.tolist()))
         e2 = tuple(float(t) for t in mask.geometry.extent)
         v.ok(all(abs(e2[k] - want[k]) <= tol for k in range(4)), "extent:masked", lambda: "%s pattern %d extent %r" % (tag, p, e2))
+        # the masked pixel-centre grid itself reused through the conversions (its own mask, slim storage of unmasked pixels only)
+        ij = np.argwhere(~m)
+        pc_want = ij + 0.5  # a pixel centre sits half a pixel from its top-left corner
+        mg = mask.geometry
+        ptag = tag + " pattern %d (grid of the mask)" % p
+
+        def fresh_g(mask=mask):
+            return aa.Grid2D.from_mask(mask=mask)
+
+        _sequence(v, {
+            "P": ("grid_pixels_2d_from", lambda t: mg.grid_pixels_2d_from(grid_scaled_2d=t).slim, g, fresh_g, lambda r: _cmp_yx(r, pc_want, tolp)),
+            "C": ("grid_pixel_centres_2d_from", lambda t: mg.grid_pixel_centres_2d_from(grid_scaled_2d=t).slim, g, fresh_g, lambda r: _cmp_int_yx(r, ij)),
+            "I": ("grid_pixel_indexes_2d_from", lambda t: mg.grid_pixel_indexes_2d_from(grid_scaled_2d=t).slim, g, fresh_g, lambda r: _cmp_int(r, wi)),
+        }, "PCIPCI", ptag)
+        _chk_yx(v, "Grid2D.from_mask", _raw(g), C[~m], tol, ptag + " after the conversions")
+
+    # ---- request histories: grid -> caller edits it IN PLACE -> identical request (-> other parameters -> identical request):
+    # every answer must be the closed form and own its buffer
+    gg = aa.util.grid_2d
+    o_alt = (o[0] + 1.5, o[1] - 2.25)
+    yca, xca = ref_centres(H, W, s, o_alt)
+    Ca = np.stack([yca, xca], axis=-1)
+    tol_alt = 1e-12 * (mag + 4.0)
+    m = pat_mask(H, W, 2) if H * W > 1 else pat_mask(H, W, 0)  # pixel (0,0) unmasked
+    m_alt = pat_mask(H, W, 3) if H * W > 1 else pat_mask(H, W, 0)
+    _history(v, "Grid2D.uniform", tag,
+             lambda: aa.Grid2D.uniform(shape_native=(H, W), pixel_scales=ps_arg, origin=o), Cs, tol,
+             lambda: aa.Grid2D.uniform(shape_native=(H, W), pixel_scales=ps_arg, origin=o_alt), Ca.reshape(H * W, 2), tol_alt)
+    mask_h = aa.Mask2D(mask=m.copy(), pixel_scales=ps_arg, origin=o)
+    _history(v, "Grid2D.from_mask", tag,
+             lambda: aa.Grid2D.from_mask(mask=mask_h), C[~m], tol,
+             lambda: aa.Grid2D.from_mask(mask=aa.Mask2D(mask=m_alt.copy(), pixel_scales=ps_arg, origin=o_alt)), Ca[~m_alt], tol_alt)
+    # derive_grid.all_false: twice from the SAME mask object, and from equal masks built anew for every request
+    _history(v, "derive_grid.all_false", tag + " (same Mask2D object)",
+             lambda: mask_h.derive_grid.all_false, Cs, tol,
+             lambda: aa.Mask2D(mask=m_alt.copy(), pixel_scales=ps_arg, origin=o_alt).derive_grid.all_false, Ca.reshape(H * W, 2), tol_alt)
+    _history(v, "derive_grid.all_false", tag + " (equal Mask2D objects)",
+             lambda: aa.Mask2D(mask=m.copy(), pixel_scales=ps_arg, origin=o).derive_grid.all_false, Cs, tol)
+    _history(v, "grid_2d_util.grid_2d_slim_via_shape_native_from", tag,
+             lambda: gg.grid_2d_slim_via_shape_native_from(shape_native=(H, W), pixel_scales=s, origin=o), Cs, tol,
+             lambda: gg.grid_2d_slim_via_shape_native_from(shape_native=(H, W), pixel_scales=s, origin=o_alt), Ca.reshape(H * W, 2), tol_alt)
+    _history(v, "grid_2d_util.grid_2d_slim_via_mask_from", tag,
+             lambda: gg.grid_2d_slim_via_mask_from(mask_2d=m.copy(), pixel_scales=s, origin=o), C[~m], tol,
+             lambda: gg.grid_2d_slim_via_mask_from(mask_2d=m_alt.copy(), pixel_scales=s, origin=o_alt), Ca[~m_alt], tol_alt)
+    _history(v, "grid_2d_util.grid_2d_via_shape_native_from", tag,
+             lambda: gg.grid_2d_via_shape_native_from(shape_native=(H, W), pixel_scales=s, origin=o), C, tol)
+    _history(v, "grid_2d_util.grid_2d_via_mask_from", tag,
+             lambda: gg.grid_2d_via_mask_from(mask_2d=m.copy(), pixel_scales=s, origin=o), np.where(m[:, :, None], 0.0, C), tol)
 
 
 def _first_bad(Qs, got, want):
